@@ -3,9 +3,13 @@
 //! This commit will remove functions, data, etc, that are not referenced
 //! internally and can be safely removed.
 
+use crate::ir::{dfs_in_order, RefFunc, Visitor};
 use crate::map::IdHashSet;
 use crate::passes::used::Used;
-use crate::{ImportKind, Module};
+use crate::{
+    ConstExpr, ElementItems, ElementKind, ExportItem, Function, FunctionId, GlobalKind, ImportKind,
+    Module,
+};
 use id_arena::Id;
 
 /// Run GC passes over the module specified.
@@ -48,6 +52,64 @@ pub fn run(m: &mut Module) {
     }
     for id in unused(&used.funcs, m.funcs.iter().map(|t| t.id())) {
         m.funcs.delete(id);
+    }
+
+    redeclare_ref_funcs(m);
+}
+
+/// `ref.func $f` inside a function body is only valid if `$f` also occurs
+/// outside of function bodies: in an element segment, a global initializer or
+/// an export. The segment or global that used to declare `$f` may just have
+/// been removed as unreachable while `$f` itself is kept, so declare the
+/// functions that lost their last declaration.
+fn redeclare_ref_funcs(m: &mut Module) {
+    struct RefFuncs(Vec<FunctionId>);
+
+    impl<'instr> Visitor<'instr> for RefFuncs {
+        fn visit_ref_func(&mut self, instr: &RefFunc) {
+            self.0.push(instr.func);
+        }
+    }
+
+    let mut in_bodies = RefFuncs(Vec::new());
+    for (_, func) in m.funcs.iter_local() {
+        dfs_in_order(&mut in_bodies, func, func.entry_block());
+    }
+    if in_bodies.0.is_empty() {
+        return;
+    }
+
+    let mut declared: IdHashSet<Function> = IdHashSet::default();
+    for export in m.exports.iter() {
+        if let ExportItem::Function(f) = export.item {
+            declared.insert(f);
+        }
+    }
+    for global in m.globals.iter() {
+        if let GlobalKind::Local(ConstExpr::RefFunc(f)) = global.kind {
+            declared.insert(f);
+        }
+    }
+    for element in m.elements.iter() {
+        match &element.items {
+            ElementItems::Functions(funcs) => declared.extend(funcs.iter().cloned()),
+            ElementItems::Expressions(_, exprs) => {
+                for expr in exprs {
+                    if let ConstExpr::RefFunc(f) = expr {
+                        declared.insert(*f);
+                    }
+                }
+            }
+        }
+    }
+
+    let mut missing = in_bodies.0;
+    missing.retain(|f| !declared.contains(f));
+    missing.sort();
+    missing.dedup();
+    if !missing.is_empty() {
+        m.elements
+            .add(ElementKind::Declared, ElementItems::Functions(missing));
     }
 }
 
